@@ -64,6 +64,8 @@ func c20Start(a lib.Args, res *lib.Result, id int) (*c20World, error) {
 	}
 	cfg.Bin = wrapper
 	cfg.Env = append(cfg.Env, "GOTRACEBACK=single")
+	// the audit log is part of every request's path, also of the requests that are refused early
+	cfg.ExtraArgs = append(cfg.ExtraArgs, "--access-log", filepath.Join(cfg.Work, "access.log"), "--admin-access-log", filepath.Join(cfg.Work, "admin-access.log"))
 	w.cfg = cfg
 	g, err := gw.Start(cfg)
 	if err != nil {
